@@ -131,7 +131,7 @@ DoBranch(e) ==
         same == momOK /\ dadOK /\ Org(e.mom).gid = Org(e.dad).gid
         c0 == IF momOK /\ dadOK /\ P.coeffPositive THEN CompatZero(Org(e.mom).g, Org(e.dad).g) ELSE e.compat0
         fails ==
-          IF ~known THEN {"X10:offspring of a species that is not in the species table, or of an unknown kind"} ELSE
+          IF ~known THEN {"X10:offspring of a species that is not in the species table of the epoch (no table at all: enter hook missing), or of an unknown kind"} ELSE
           (* (a) the branch was enabled *)
           F(sps[e.sp].phase = "open", "X10:offspring outside Species.reproduce of its species")
           \cup F(~cur.on, "X10:offspring started before the previous baby was completed")
